@@ -58,6 +58,7 @@ type frame struct {
 	conds       map[*ssa.BasicBlock]string
 	rets        []retInfo
 	loopHeadState map[*Loop]*state
+	callLog     map[string][]T // straight-line functions: first non-receiver argument of every static call, by callee name
 	debug       []dbgRef
 	caller      *frame
 	inputs      []string // names of input constants (for models)
